@@ -777,6 +777,7 @@ func (g *G) Op() Op {
 	case "upsertUUID":
 		op.D = g.Doc()
 		op.Seed = uint64(rapid.IntRange(1, 6).Draw(g.t, "seed"))
+		op.Ref = g.uni(64, "ref")
 	case "update":
 		op.Ref = g.uni(64, "ref")
 		if g.pct("replace") < 25 {
@@ -899,6 +900,29 @@ func (g *G) Op() Op {
 			d := g.Doc()
 			d.S = tagVals[3]
 			op.Sub = append(op.Sub, Op{Op: "insert", D: d})
+			if g.pct("movemember") < 60 {
+				// a member of the held result moves to exactly the value the late Or asks for
+				op.Sub = append(op.Sub, Op{Op: "update", Ref: g.uni(64, "moveref"), Sets: []FieldSet{{Path: "S", V: Val{K: "s", S: tagVals[3]}}}})
+			}
+		}
+		if !tagged && shape >= 45 && shape < 54 {
+			// the held search is ONE equality term F = v1; members move to exactly v2 during the
+			// writes; then Or(F = v2) is derived: a moved member is in both operands
+			type eq struct {
+				path   string
+				v1, v2 Val
+			}
+			c := pickU(g, []eq{
+				{"S", Val{K: "s", S: "a"}, Val{K: "s", S: "b"}}, {"S", Val{K: "s", S: ""}, Val{K: "s", S: "ab"}},
+				{"U8", Val{K: "u", U: 0}, Val{K: "u", U: 1}}, {"I64", Val{K: "i", I: 0}, Val{K: "i", I: 1}}, {"I64", Val{K: "i", I: 1}, Val{K: "i", I: -1}},
+			}, "eqmove")
+			q.Leaves = []Leaf{{Path: c.path, Op: "=", V: c.v1}}
+			op.Q = q
+			delete(op.Aux, "derive")
+			op.Aux["derive2"] = Leaf{Conn: "or", Path: c.path, Op: "=", V: c.v2}
+			for i, k := 0, 1+g.uni(2, "nmoves"); i < k; i++ {
+				op.Sub = append(op.Sub, Op{Op: "update", Ref: g.uni(64, "moveref"), Sets: []FieldSet{{Path: c.path, V: c.v2}}})
+			}
 		}
 		n := 1 + g.uni(6, "nsub")
 		burst := g.pct("burst") < 20 // many inserts: exceed the slice capacity
